@@ -53,11 +53,11 @@ Step(e) ==
        /\ Skip /\ UNCHANGED <<cur, bad>>
   ELSE IF bad THEN Skip /\ UNCHANGED <<cur, bad>>
   ELSE IF e.ev = "enter" THEN
-       IF EnterG(e) THEN /\ (TextOK(e) \/ Report("text"))
+       IF EnterG(e) THEN /\ (IF TextOK(e) THEN TRUE ELSE Report("text"))
                          /\ EnterE(e) /\ UNCHANGED <<cur, bad>>
                     ELSE Reject(WhyNode(e))
   ELSE IF e.ev = "leaf" THEN
-       IF LeafG(e) /\ e.nc = 0 THEN /\ (TextOK(e) \/ Report("text"))
+       IF LeafG(e) /\ e.nc = 0 THEN /\ (IF TextOK(e) THEN TRUE ELSE Report("text"))
                                     /\ LeafE(e) /\ UNCHANGED <<cur, bad>>
                                ELSE Reject(WhyNode(e))
   ELSE IF e.ev = "exit" THEN
